@@ -792,6 +792,13 @@ def r17_eval(ctx, repo):
     big = bytes(range(1, 200)) * 20
     B1 = MArr(big, "<u1", (len(big),))
     B2 = MArr(big[:2000] + b"\xff" + big[2001:], "<u1", (len(big),))
+    # far beyond any sampling threshold (2**16 elements and more)
+    nbig = 3 * 2**16 + 5
+    bigb = bytes((i * 7 + 3) % 251 for i in range(nbig))
+    BIG1 = MArr(bigb, "<u1", (nbig,))
+    BIG2 = MArr(bytes(b if i % 2 == 0 else (b + 1) % 256
+                      for i, b in enumerate(bigb)), "<u1", (nbig,))
+    BIG3 = MArr(bigb[:-1] + bytes([(bigb[-1] + 1) % 256]), "<u1", (nbig,))
     # argument lists that denote different computations
     distinct = [
         ("('ab', 'c')", ("ab", "c"), {}),
@@ -823,6 +830,9 @@ def r17_eval(ctx, repo):
         ("(large array)", (B1,), {}),
         ("(large array, one byte in the middle changed)", (B2,), {}),
         ("(a=large array)", (), {"a": B1}),
+        ("(very large array)", (BIG1,), {}),
+        ("(very large array, every odd byte changed)", (BIG2,), {}),
+        ("(very large array, only the last byte changed)", (BIG3,), {}),
         ("(a=large array, one byte changed)", (), {"a": B2}),
     ] + [(f"({k})", (v,), {}) for k, v in arrays.items()] + [
         (f"([{k}],)", ([v],), {}) for k, v in list(arrays.items())[:2]] + [
